@@ -289,6 +289,13 @@ pub(super) fn anchor_split(
         ctx.verif_ensured(*old_cid);
 
         let mut new_name = old_name;
+        // verification hook: what reaches the regenerate-until-unused loop
+        #[cfg(prqlc_verif)]
+        let (verif_old, verif_used) = {
+            let mut used: Vec<String> = used_new_names.iter().cloned().collect();
+            used.sort();
+            (new_name.clone(), used)
+        };
         if let Some(new) = &mut new_name {
             if used_new_names.contains(new) {
                 // regenerate until unused: a user column may be spelled like a
@@ -302,6 +309,11 @@ pub(super) fn anchor_split(
             used_new_names.insert(new.clone());
             ctx.column_names.insert(new_cid, new.clone());
         }
+        #[cfg(prqlc_verif)]
+        log::debug!(
+            "verif:namegen {}",
+            serde_json::json!({"site": "anchor_split", "old": verif_old, "used": verif_used, "new": new_name.clone()})
+        );
 
         let old_def = ctx.column_decls.get(old_cid).unwrap();
 
